@@ -2,7 +2,7 @@
 bit level); tags decode to the variant the writer meant; every compress path (incl. raw fallback)
 has its inverse on the decompress side (R-SYM)."""
 from vlib import fixtures
-from rules import pair, sym, tagmap
+from rules import pair, sym, tagmap, tagkind
 from vlib.mir import Fn, op_local
 from vlib.run import Broken
 
@@ -31,7 +31,7 @@ def arm_pair(ctx, fx, w, r, enums, label, rule="R-PAIR"):
 
 def run(ctx):
     fx = ctx.facts("default")
-    fixtures.run(ctx, ['pair'])
+    fixtures.run(ctx, ['pair', 'tagkind'])
     ev = 0
     w, r = need(fx, PZ + "apply_compression_strategy"), need(fx, PZ + "decompress_match")
     ctx.analysed_fns.update([w.id, r.id])
@@ -103,6 +103,9 @@ def run(ctx):
                     Fn(fx.raw(RT + "compress_internal::{closure#0}")), f, match_stems=False)
         k += 1
     ctx.instance("R-SYM.pairs", k)
+    # tagged frames of the real-time front end: the tag determines what was done to the payload
+    tagkind.run(ctx, fx, "src/compression/realtime.rs")
+    ctx.floor("R-TAGKIND.sites", 3)
     ctx.floor("R-SYM.pairs", 8)
     return dict(
         level_note="decides layout/tag agreement per match type and store/load path symmetry; match finding, the suffix-array "
@@ -110,7 +113,9 @@ def run(ctx):
         explanation="R-PAIR: event sequences (byte widths+endianness, bit counts, helper stems) over the successful acyclic paths "
                     "of each enum arm of the writer must equal those of the reader's arm for the same variant. R-PAIR.tag: "
                     "integer->variant tables map k to the variant with discriminant k. R-SYM: def-use path kinds (identity / "
-                    "through a transforming call) from the payload to the result of compress must be mirrored by decompress.",
-        trusted_base=["rustc nightly MIR", "zfacts", "rules/pair.py", "rules/sym.py", "rules/tagmap.py"],
+                    "through a transforming call) from the payload to the result of compress must be mirrored by decompress. R-TAGKIND: over "
+                    "all `tagged(tag, payload)` sites of realtime.rs the relation (tag constant, payload kind) is one-to-one, with "
+                    "framing helpers expanded into their callers.",
+        trusted_base=["rustc nightly MIR", "zfacts", "rules/pair.py", "rules/sym.py", "rules/tagmap.py", "rules/tagkind.py"],
         rule_text="obligation = (writer arm, reader arm) | tag arm | (compress, decompress) pair",
     )
